@@ -92,7 +92,7 @@ theorem stepEventI_ws (c : Cfg) (ha : AsciiOk c.enc) (st : List Bool) (s : IndSt
         exact InsertsWs.mid _ _ _ hws
   | charactersRaw str =>
     simp only [stepEventI, stepEvent, bind, Except.bind, pure, Except.pure]
-    cases wStr c.enc str with
+    cases wRaw c.enc str with
     | error e => simp [AgreeWs]
     | ok t => simp [AgreeWs, p1, p2, InsertsWs.refl]
   | comment data =>
